@@ -50,7 +50,7 @@ UIDS_WITH = [0, 1, 2, 33, 1000, 65534, 4300, 4301, 4302, 4303, 4304]
 UIDS_WITHOUT = [4242, 70000, 2 ** 31, 1234567]
 GIDS_WITH = [0, 1, 2, 33, 1000, 65534, 4300, 4301, 4304, 4305]
 GIDS_WITHOUT = [4243, 70001, 2 ** 31 + 1]
-VERSION = CONFIGURE = b""
+VERSION = CONFIGURE = CONFIGURE_SECURE = b""
 
 
 def strategy():
@@ -83,8 +83,14 @@ def strategy():
         leaf = draw(st.one_of(gen.ident_bytes(1, 15), st.sampled_from([b" lead", b"  two", b"\ttab", b"trail ", b"in ner", b"kworker/u8:1", b"a:b", b"(paren)", b"123456789012345"])))
         return {"u": list(u), "g": list(g), "cwd": cwd, "deep_len": deep_len, "stdin": stdin, "tty_owner": tty_owner, "envk": envk,
                 "v1": v1, "chain": chain, "orphan": orphan, "newsid": newsid, "host": host, "logname": logname, "sudo_user": sudo_user,
-                "dtf": dtf, "cgs": cgs, "leaf": leaf, "bigpid": draw(st.sampled_from([0] * 7 + [1234567, 4194000]))}
+                "dtf": dtf, "cgs": cgs, "leaf": leaf, "bigpid": draw(st.sampled_from([0] * 7 + [1234567, 4194000])),
+                # the calling program is a set-uid-root program started by another user (sudo, su, pkexec ...): secure-execution mode of the
+                # loader and the C library, libraries loaded through /etc/ld.so.preload
+                "secure": draw(st.sampled_from([False, False, False, True]))}
     return case()
+
+
+SECURE = "ts-plain-secure"
 
 
 def build_format(c):
@@ -189,7 +195,7 @@ def gr_name(gid):
 
 
 def evaluate(env, c):
-    d = env.driver("ts-asan")
+    d = env.driver(SECURE if c.get("secure") and SECURE in env.builds else "ts-asan")
     out = d.out
     import shutil
     work = os.path.join(out, "w")
@@ -399,7 +405,7 @@ def evaluate(env, c):
                 break
         eq("cgroup", want)
     eq("snoopy_version", VERSION)
-    eq("snoopy_configure_command", CONFIGURE[:L])
+    eq("snoopy_configure_command", (CONFIGURE_SECURE if c.get("secure") and CONFIGURE_SECURE else CONFIGURE)[:L])
     eq("snoopy_threads", b"1")
     eq("filename", path)
     eq("cmdline", b"prog a b")
@@ -417,7 +423,8 @@ def classify(c):
     distinct = len({c["u"][0], c["u"][1]}) + len({c["g"][0], c["g"][1]}) >= 4 or len({c["u"][0], c["u"][1], c["g"][0], c["g"][1]}) >= 3
     tty = c["stdin"] == "pty"
     nontriv = distinct or tty or c["cwd"] in ("deleted", "deep") or c["orphan"]
-    cls = ["cwd:" + c["cwd"], "stdin:" + c["stdin"], "env:" + c["envk"], "chain:%d" % len(c["chain"])] + (["pid:7-digits(own pid namespace)"] if c.get("bigpid") else [])
+    cls = ["cwd:" + c["cwd"], "stdin:" + c["stdin"], "env:" + c["envk"], "chain:%d" % len(c["chain"])] + (["pid:7-digits(own pid namespace)"] if c.get("bigpid") else []) + \
+          (["set-uid-program-started-by-another-user(AT_SECURE)"] if c.get("secure") else [])
     for f, n in ((distinct, "ids-distinct"), (c["orphan"], "orphan"), (c["newsid"], "new-session"), (c["host"] is not None, "uts-hostname"),
                  (any(pw_name(u) is None for u in c["u"][:2]), "uid-without-passwd-entry"),
                  (any(gr_name(g) is None for g in c["g"][:2]), "gid-without-group-entry")):
@@ -491,7 +498,7 @@ def interrupted_reads_phase(ctx, b):
 
 
 def main():
-    global VERSION, CONFIGURE
+    global VERSION, CONFIGURE, CONFIGURE_SECURE
     ctx = Ctx(PID, "exploration", RULE)
     b = ctx.run.build("ts-asan")
     cfgh = open(os.path.join(b["src"], "config.h")).read()
@@ -505,7 +512,9 @@ def main():
                        "states the sandbox refuses to construct (e.g. setresuid errors) are skipped and counted, never judged"]
     nw, per = (4, 350) if ctx.quick else (16, 2500)
     make_sysfiles(ctx.run.dir)
-    pbt.run(ctx, {"ts-asan": b}, strategy, evaluate, classify, nw, per, driver_kwargs={"binds": [(v, k) for k, v in sorted(SYSFILES.items())]})
+    bsec = dict(ctx.run.build("ts-plain"), name=SECURE, driver_kwargs={"secure": True})
+    CONFIGURE_SECURE = re.search(r'#define SNOOPY_CONFIGURE_COMMAND "(.*)"\n', open(os.path.join(bsec["src"], "config.h")).read()).group(1).encode().replace(b'\\"', b'"')
+    pbt.run(ctx, {"ts-asan": b, SECURE: bsec}, strategy, evaluate, classify, nw, per, driver_kwargs={"binds": [(v, k) for k, v in sorted(SYSFILES.items())]})
     if not ctx.replay:
         interrupted_reads_phase(ctx, b)
     ctx.finish()
